@@ -41,8 +41,10 @@ NOT_YET = {}
 PROPS = {
     "C15": {
         "level_text": "Kernel-checked theorems (exact arithmetic) for the Julian-day formula, its "
-                      "inverse and the time-unit helpers, about a Lean model that is compared with "
-                      "the implementation on generated inputs on every run.",
+                      "inverse (round trip for every whole-second instant from 1582-10-15 on) and the "
+                      "time-unit helpers, about a Lean model that is compared with the implementation on "
+                      "generated inputs and, for the inverse, on EVERY date 1582-10-15 … 9999-12-31 "
+                      "(3 074 324 round trips) on every run.",
         "level_note": "Theorems are about the model at α := ℝ; the tie to /repo is the sampled "
                       "correspondence (bit-exact on Float). Trusted: Lean kernel, Mathlib, harness.",
         "lean_modules": ["Astral.Props.C15", "Astral.Props.C15Inv", "Astral.Props.C15Ord",
@@ -56,7 +58,8 @@ PROPS = {
             "Astral.C15Ord.ordToYMD_spec", "Astral.C15Date.jd_date", "Astral.C15Date.jd_step",
             "Astral.C15Date.jd_wall", "Astral.C15Date.jd_roundtrip_wall",
         ],
-        "groups": [G("corr_julian", "julian", 6000, 300000)],
+        "groups": [G("corr_julian", "julian", 6000, 300000, bulk_quick=["roundtrip_all_dates_bulk"],
+                     bulk_thorough=["roundtrip_all_dates_bulk"])],
         "unproved": [],
         "assumes": [],
     },
